@@ -26,6 +26,18 @@ def close(a, b):
 
 
 def run(call):
+    if call.get("op") == "batch":
+        n = 0
+        for c in call["calls"]:
+            out = run(c)
+            n += 1
+            if out["kind"] != "return" or not out["value"]["ok"]:
+                if out["kind"] == "return":
+                    out["value"]["failing_call"] = c
+                else:
+                    out["msg"] = out.get("msg", "") + " on " + str(c)[:200]
+                return out
+        return {"kind": "return", "value": {"ok": True, "inputs": n}}
     import numpy
     from openfisca_core import taxscales
     try:
